@@ -19,7 +19,9 @@ oracle failure was found too).
 
 Wiring (tools/rootmode_wiring.diff; summary at the end of this file): every codec check passes `post=rootmode.post("<mode>")` to
 generic.run_check (through codecmode.run / patchmode.run); C04 and C06, which have their own post callback, call run_root at its end.
-For c11 and c07 the root part also runs the oracle-only partial-update mode c11p of the root driver (EXTRA_MODES).
+For c11 and c07 the root part also runs the partial-update mode c11p of the root driver (EXTRA_MODES): property oracle on the
+implementation AND the cases evaluated with Corr/RootPatchCorr.v (model Codec/RootPatch.v of the root generator's X_PartialUpdate
+code on the flattened family environment; theorems Props/C11_rootpatch.v, an obligation of C11 and C07 through checks/patchmode.py).
 """
 import json, os, time
 import rootcodec
@@ -44,12 +46,25 @@ ROOT_TRUSTED = (
     "files are stated for the v2 model: for the root module they apply through this instantiation only")
 
 # quick tier: how many shards of cases are evaluated by the model (evenly spread over the run; the Go oracles see every case)
-# oracle-only driver modes run after the main mode (no cases for the model): partial updates through the root X_PartialUpdate bindings
-# (harness/rootdrv/root_patch.go) belong to C11 and C07, as mode c11p does in the v2 part (checks/patchmode.py)
+# driver modes run after the main mode: partial updates through the root X_PartialUpdate bindings (harness/rootdrv/root_patch.go)
+# belong to C11 and C07, as mode c11p does in the v2 part (checks/patchmode.py); their cases are evaluated with EXTRA_CORR
 EXTRA_MODES = dict(c11=["c11p"], c07=["c11p"])
+EXTRA_CORR = dict(c11p=dict(
+    vo=["Corr/RootPatchCorr.vo"],
+    name="corr:root-module partial-update (model Codec/RootPatch.v: root_enc_patch / root_dec_patch on the flattened family environment vs the "
+         "X_PartialUpdate bindings of the ROOT generator: encoders modulo member order, decoders exactly)"))
 
-QUICK_SHARDS = dict(c01=12, c04=120, c06=12, c07=9, c11=9, c13=6, c10=22, c16=36)
-THOROUGH_SHARDS = dict(c01=150, c04=1200, c06=200, c07=160, c11=120, c13=100, c10=200, c16=300)
+QUICK_SHARDS = dict(c01=12, c04=120, c06=12, c07=9, c11=9, c13=6, c10=22, c16=36, c11p=20)
+THOROUGH_SHARDS = dict(c01=150, c04=1200, c06=200, c07=160, c11=120, c13=100, c10=200, c16=300, c11p=300)
+
+ROOT_TRUSTED_PATCH = (
+    "root module, partial updates: the model Codec/RootPatch.v transcribes the code the ROOT generator emits (codegen/types/"
+    "record_partial_update.go: checkAllFields, MarshalRestLiPatch / MarshalRestLi, UnmarshalRestLiPatch / UnmarshalRestLi, "
+    "X_PartialUpdate_Delete_Fields.(Un)MarshalRestLi, the all-optional Set_Fields record) and restli/partial_update_utils.go CheckField, "
+    "function by function, on the flattened environment; it is compared with the generated root bindings of the family on every run "
+    "(mode c11p of the root driver, JSON; the ROR2 reading of the same documents is decided by the property oracle alone); set values are "
+    "encoded / decoded by the codec model (enc / decJ); the theorems of Props/C11_rootpatch.v are stated for this model and, the root spec "
+    "parser flattening included records, cover records with includes")
 
 # the correspondence glue of each mode (default Corr/RootCorr.vo): C10 and C16 have their own case formats (Corr/HashCorr.v,
 # Corr/KeySetCorr.v), read for the root module by Corr/RootHashCorr.v / Corr/RootKeySetCorr.v
@@ -138,8 +153,10 @@ def run_root(run, mode, tier, seed, timeout=3000, replay=None):
             run.log("root module: model evaluated on %d of %d cases: %d mismatches" % (ncases, len(cases["cases"]), nmis))
         for xm in EXTRA_MODES.get(mode, []):
             xout = os.path.join(work, "cases_" + xm)
-            rc, o = sh([exe, "--out", xout, "--tier", tier, "--seed", str(seed)], cwd=work,
-                       env=env_go(dict(VERIF_SCHEMA=schema, VERIF_MODE=xm)), timeout=timeout)
+            xcmd = [exe, "--out", xout, "--tier", tier, "--seed", str(seed)]
+            if replay:
+                xcmd += ["--replay", os.path.abspath(replay)]
+            rc, o = sh(xcmd, cwd=work, env=env_go(dict(VERIF_SCHEMA=schema, VERIF_MODE=xm)), timeout=timeout)
             if rc != 0:
                 raise Broken("correspondence", "root driver (mode %s) failed (exit %s)" % (xm, rc), o[-6000:])
             xrep = json.load(open(os.path.join(xout, "report.json")))
@@ -149,9 +166,37 @@ def run_root(run, mode, tier, seed, timeout=3000, replay=None):
                 run.fail_input("root:" + f["sig"], "[root module] " + f["what"], f["case"], site=f.get("site"), impl=f.get("impl"))
             cov[xm] = dict(evaluations=xrep["evaluations"], distinct_nontrivial=xrep["distinct_nontrivial"], rule=xrep["rule"],
                            samples=xrep["samples"][:3] or ["(none)"], input_distribution=xrep["distribution"],
-                           oracle_failures=sorted(set(f["sig"] for f in xrep["failures"])),
-                           note="decided by the property oracle on the implementation only (the patch model Codec/Patch.v transcribes the "
-                                "v2 generated code, which the root generator does not share)")
+                           oracle_failures=sorted(set(f["sig"] for f in xrep["failures"])))
+            xc = EXTRA_CORR.get(xm)
+            if not xc or not xrep.get("shards"):
+                cov[xm]["note"] = "decided by the property oracle on the implementation only (no cases for a model)"
+                continue
+            if any(b.kind in ("translator", "model") for b in run.broken):
+                cov[xm]["note"] = "the model was not evaluated (translator / model broken, see above)"
+                continue
+            if ROOT_TRUSTED_PATCH not in run.trusted:
+                run.trusted.append(ROOT_TRUSTED_PATCH)
+            try:
+                coq_make(xc["vo"])
+            except Broken as b:
+                b.kind = "model"
+                raise
+            xcases = json.load(open(os.path.join(xout, "cases.json")))
+            xpicked = _pick(xrep["shards"], (THOROUGH_SHARDS if tier == "thorough" else QUICK_SHARDS).get(xm))
+            xres = coq_eval_cases(xout, [os.path.join(xout, xrep["shards"][k]) for k in xpicked])
+            xmis, xn = 0, 0
+            for k in xpicked:
+                idx, rtxt = xres[os.path.join(xout, xrep["shards"][k])]
+                xn += min(xcases["per"], len(xcases["cases"]) - k * xcases["per"])
+                for i in idx:
+                    xmis += 1
+                    if xmis <= 3:
+                        c = xcases["cases"][k * xcases["per"] + i]
+                        run.broken.append(Broken("correspondence", xc["name"],
+                                                 json.dumps(dict(module="root", first_disagreeing_case=c,
+                                                                 model_results_for_shard=rtxt[:2000]), default=str)))
+            cov[xm].update(correspondence_cases=xn, correspondence_cases_total=len(xcases["cases"]), correspondence_mismatches=xmis)
+            run.log("root module: %s model evaluated on %d of %d cases: %d mismatches" % (xm, xn, len(xcases["cases"]), xmis))
     except Broken as b:
         run.broken.append(b)
         cov["broken"] = "%s: %s" % (b.kind, b.name)
